@@ -52,14 +52,14 @@ func init() {
 			switch variant {
 			case "default":
 				if tier == core.Thorough {
-					return 4000
+					return 2400
 				}
-				return 300
+				return 240
 			case "race":
 				if tier == core.Thorough {
-					return 600
+					return 300
 				}
-				return 60
+				return 48
 			}
 			return 0
 		},
